@@ -1096,7 +1096,7 @@ fn lower_expr_with_args(
                 return None;
             }
             Some(ast::Expr::EString {
-                value: value.to_string(),
+                value: unescape_string_literal(value),
                 astptr,
             })
         }
@@ -1799,6 +1799,58 @@ fn lower_expr_with_args(
     }
 }
 
+/// Decodes the escape sequences the lexer accepts inside `"..."` (the JSON set:
+/// `\" \\ \/ \b \f \n \r \t \uXXXX`, surrogate pairs combined).
+fn unescape_string_literal(raw: &str) -> String {
+    fn hex4(chars: &mut std::iter::Peekable<std::str::Chars<'_>>) -> Option<u32> {
+        let mut code = 0u32;
+        for _ in 0..4 {
+            code = code * 16 + chars.next()?.to_digit(16)?;
+        }
+        Some(code)
+    }
+
+    let mut out = String::with_capacity(raw.len());
+    let mut chars = raw.chars().peekable();
+    while let Some(ch) = chars.next() {
+        if ch != '\\' {
+            out.push(ch);
+            continue;
+        }
+        match chars.next() {
+            Some('b') => out.push('\u{8}'),
+            Some('f') => out.push('\u{c}'),
+            Some('n') => out.push('\n'),
+            Some('r') => out.push('\r'),
+            Some('t') => out.push('\t'),
+            Some('u') => {
+                let Some(code) = hex4(&mut chars) else {
+                    out.push('\u{fffd}');
+                    continue;
+                };
+                if (0xD800..0xDC00).contains(&code) {
+                    let mut ahead = chars.clone();
+                    if ahead.next() == Some('\\')
+                        && ahead.next() == Some('u')
+                        && let Some(low) = hex4(&mut ahead)
+                        && (0xDC00..0xE000).contains(&low)
+                    {
+                        chars = ahead;
+                        let combined = 0x10000 + ((code - 0xD800) << 10) + (low - 0xDC00);
+                        out.push(char::from_u32(combined).unwrap_or('\u{fffd}'));
+                        continue;
+                    }
+                }
+                out.push(char::from_u32(code).unwrap_or('\u{fffd}'));
+            }
+            // `\"`, `\\`, `\/` (and anything the lexer would not have accepted) stand for themselves
+            Some(other) => out.push(other),
+            None => out.push('\\'),
+        }
+    }
+    out
+}
+
 fn apply_trailing_args(
     ctx: &mut LowerCtx,
     expr: ast::Expr,
@@ -2019,7 +2071,7 @@ fn lower_pat(ctx: &mut LowerCtx, node: cst::Pattern) -> Option<ast::Pat> {
                 return None;
             };
             Some(ast::Pat::PString {
-                value: value.to_string(),
+                value: unescape_string_literal(value),
                 astptr,
             })
         }
